@@ -24,6 +24,8 @@ Translated (every piece is pure dispatch / bookkeeping logic; numerical content 
                              returns early exactly when that flag is set (and on nothing else)
         gen_pgd_choice eq ineq   which projection is assigned to self._func_proj for the four flag combinations
                              (PPhysical / PEq / PIneq / PSelf)
+  G4  the call skeletons of ProbabilityBasedLossFunction.set_from_standard_qtomography_option_data and of the loop of
+      LossMinimizationEstimator.calc_estimate_sequence (see g4)
 Anything that does not match the expected shape makes the translator FAIL (exit 1): nothing is skipped silently."""
 import ast, os, sys
 
@@ -350,12 +352,60 @@ def g3(repo):
     return out + "  end.\n"
 
 
+# ------------------------------------------------------------------------------------------------ G4
+def call_seq(stmts, receivers):
+    """the calls `<receiver>.<method>(...)` (receiver a plain name of the given set) in textual / execution order, descending into
+    if bodies (conditional calls are marked with '?'); loops, try blocks and nested functions are rejected"""
+    out = []
+    for st in stmts:
+        need(not isinstance(st, (ast.For, ast.While, ast.Try, ast.FunctionDef, ast.With)), "unexpected compound statement in a configuration sequence")
+        if isinstance(st, ast.If):
+            cond_calls = [c for c in call_seq(st.body, receivers)]
+            if st.orelse:
+                cond_calls += call_seq(st.orelse, receivers)
+            # `if x.check() == False: raise` - validation only, no configuration call inside
+            if all(isinstance(b, ast.Raise) for b in st.body):
+                continue
+            out += [c if c.endswith("?") else c + "?" for c in cond_calls]
+            continue
+        for n in ast.walk(st):
+            if isinstance(n, ast.Call) and isinstance(n.func, ast.Attribute) and isinstance(n.func.value, ast.Name) and n.func.value.id in receivers:
+                out.append("%s.%s" % (n.func.value.id, n.func.attr))
+    return out
+
+
+def g4(repo):
+    """quara/loss_function/probability_based_loss_function.py, ProbabilityBasedLossFunction.set_from_standard_qtomography_option_data:
+         gen_loss_configure_calls   the sequence of self.* calls (the weights are set LAST, after the probability functions)
+       quara/protocol/qtomography/standard/loss_minimization_estimator.py, LossMinimizationEstimator.calc_estimate_sequence:
+         gen_est_loop_calls         the loss.* / algo.* calls INSIDE the loop over the data sets, in order (time measurement and
+                                    validation-only `if ...: raise` statements skipped): every data set re-configures loss and algorithm
+         gen_est_calls_outside_loop loss.* / algo.* calls outside that loop (must be none)"""
+    cls = find_class(parse(repo, "quara/loss_function/probability_based_loss_function.py"), "ProbabilityBasedLossFunction")
+    fn = methods(cls)["set_from_standard_qtomography_option_data"]
+    seq1 = call_seq(body_nodoc(fn), {"self"})
+    cls = find_class(parse(repo, "quara/protocol/qtomography/standard/loss_minimization_estimator.py"), "LossMinimizationEstimator")
+    fn = methods(cls)["calc_estimate_sequence"]
+    b = body_nodoc(fn)
+    loops = [st for st in b if isinstance(st, ast.For)]
+    need(len(loops) == 1 and not loops[0].orelse, "calc_estimate_sequence: expected exactly one for loop")
+    need(isinstance(loops[0].iter, ast.Name) and loops[0].iter.id == fn.args.args[2].arg, "the loop does not run over the sequence of data sets")
+    inner = [st for st in loops[0].body if not (isinstance(st, ast.If) and any(isinstance(x, ast.Name) and x.id.startswith("is_") for x in ast.walk(st.test)))]
+    seq2 = call_seq(inner, {"loss", "algo"})
+    outside = [c for st in b if st is not loops[0] and not isinstance(st, (ast.For,)) for c in
+               ["%s.%s" % (n.func.value.id, n.func.attr) for n in ast.walk(st) if isinstance(n, ast.Call) and isinstance(n.func, ast.Attribute)
+                and isinstance(n.func.value, ast.Name) and n.func.value.id in ("loss", "algo")]]
+    lst = lambda l: "[" + "; ".join('"%s"' % x for x in l) + "]"
+    return ("Definition gen_loss_configure_calls : list string := %s.\nDefinition gen_est_loop_calls : list string := %s.\n"
+            "Definition gen_est_calls_outside_loop : list string := %s.\n" % (lst(seq1), lst(seq2), lst(outside)))
+
+
 def main():
     repo, outp = sys.argv[1], sys.argv[2]
     try:
         text = "(* GENERATED by gen/c13_py2coq.py from %s - do not edit *)\nFrom Coq Require Import List String Bool.\nFrom QV.Model Require Import C13_Cache.\nImport ListNotations.\nOpen Scope string_scope.\n\n" % repo
         text += "Inductive gaction := GKeep | GReset | GCustom | GInv (unbiased : bool).\nInductive gproj := PPhysical | PEq | PIneq | PSelf.\n\n"
-        text += g1(repo) + "\n" + g2(repo) + "\n" + g3(repo)
+        text += g1(repo) + "\n" + g2(repo) + "\n" + g3(repo) + "\n" + g4(repo)
     except Reject as e:
         print("REJECT: %s" % e)
         sys.exit(1)
